@@ -22,6 +22,7 @@ type instance struct {
 	backend string // mem | pebble
 	dir     string
 	mem     storage.Storage
+	addr    string // TCP address once Serve is running
 }
 
 var (
